@@ -54,7 +54,12 @@ def _case(draw):
     spec['specials'] = specials
     sel = draw(st.lists(st.integers(0, D - 1), min_size=1, max_size=D, unique=True))
     route = draw(st.sampled_from(['rfi', 'rfi', 'rfi_mef', 'rfi_mef', 'transform']))
-    return dict(spec=spec, sel=sel, spell=[draw(st.sampled_from(['name', 'pos', 'neg', 'name', 'pos'])) for _ in sel], route=route,
+    form = 'list'
+    if len(sel) == 1 and draw(st.booleans()):
+        form = 'scalar'                       # one channel given bare: 0, -1, 'FSC-H'
+    elif draw(st.integers(0, 24)) == 0:
+        sel, form = [], 'empty'               # nothing requested: nothing may change
+    return dict(form=form, override=draw(st.sampled_from([None, None, None, 'py', 'f32', 'f64'])), spec=spec, sel=sel, spell=[draw(st.sampled_from(['name', 'pos', 'neg', 'name', 'pos'])) for _ in sel], route=route,
                 m=[draw(st.floats(0.85, 1.25)) for _ in sel], b=[draw(st.floats(0.0, 7.0)) for _ in sel],
                 fxn=draw(st.sampled_from(['sqrt', 'pow', 'exp', 'log1p'])), p=draw(st.floats(0.5, 2.0)),
                 gate_channels=draw(st.sampled_from(['all', 'selected'])), derived=draw(st.sampled_from([None, None, None, ['slice', 1], ['slice', 2], ['list', 1], ['perm', 1], ['permname', 2]])))
@@ -89,18 +94,35 @@ def check(case, obs):
     from pbt.props.c03 import _spell
     chs = [_spell(j, sp, names, False) for j, sp in zip(sel, case['spell'])]
     route = case['route']
-    curves = [_std_crv(m, b) for m, b in zip(case['m'], case['b'])]
+    curves = [_std_crv(m, b) for m, b in zip(case['m'], case['b'])][:len(sel)]
     if route == 'transform':
-        R0 = float(max(spec['ranges'][j] for j in sel))   # keeps exp finite and strictly increasing
+        R0 = float(max([spec['ranges'][j] for j in sel] or [1]))   # keeps exp finite and strictly increasing
         fx = dict(sqrt=np.sqrt, pow=lambda x: np.power(x, case['p']), exp=lambda x: np.exp(np.asarray(x) / R0),
                   log1p=np.log1p)[case['fxn']]
 
+    form = case.get('form', 'list')
+    ch_arg = chs[0] if form == 'scalar' else chs
+    obs.label('form:' + form)
+    kw = {}
+    if case.get('override') and form != 'empty':
+        # the recorded settings handed over by the caller, as Python floats or NumPy scalars of either width
+        cast = dict(py=float, f32=np.float32, f64=np.float64)[case['override']]
+        at, ag = [], []
+        for j in sel:
+            a0, a1 = [float(v) for v in spec['pne'][j].split(',')]
+            if a0 != 0 and a1 == 0:
+                a1 = 1.0          # what the reader makes of the non-standard zero offset (a literal 0 would map all to 0)
+            at.append((cast(a0), cast(a1)))
+            ag.append(cast(float(spec['png'][j])) if spec['png'][j] is not None else None)
+        kw = dict(amplification_type=at[0] if form == 'scalar' else at, amplifier_gain=ag[0] if form == 'scalar' else ag)
+        obs.label('override:' + case['override'])
+
     def convert(s):
         if route == 'rfi':
-            return tr.to_rfi(s, chs)
+            return tr.to_rfi(s, ch_arg, **kw)
         if route == 'rfi_mef':
-            return tr.to_mef(tr.to_rfi(s, chs), chs, curves, chs)
-        return tr.transform(s, chs, fx)
+            return tr.to_mef(tr.to_rfi(s, ch_arg, **kw), ch_arg, curves, chs)
+        return tr.transform(s, ch_arg, fx)
 
     t = call(convert, d)
     if not obs.claim('returns', not raised(t), lambda: 'conversion raised %r' % (t,)):
@@ -131,7 +153,7 @@ def check(case, obs):
     obs.nontrivial = log_or_mef and both
     obs.label('route:' + route, 'log_or_mef' if log_or_mef else 'linear_only')
     # gating before or after the conversion keeps the same events
-    gch = None if case['gate_channels'] == 'all' else chs
+    gch = None if (case['gate_channels'] == 'all' or not chs) else chs
     g_after = call(gate.high_low, t, channels=gch, full_output=True)
     g_before = call(gate.high_low, d, channels=gch, full_output=True)
     if not obs.claim('commute', not raised(g_after) and not raised(g_before), lambda: 'high_low raised %r %r' % (g_after, g_before)):
